@@ -25,9 +25,9 @@ from vp.gen import results as R
 PROP = "C19"
 LEVEL = "exploration"
 RULE = (
-    "2/3 ranking cases: base + 0..7 candidates drawn from a pool of 35 structurally different models "
+    "2/3 ranking cases: base + 0..7 candidates drawn from a pool of 38 structurally different models "
     "(pheno / create_basic_pk_model + add_peripheral_compartment, add_iiv, add_iov, error models, covariates, "
-    "elimination, absorption), varied per case by fixed parameters, omegas fixed to 0, dataset subsets and an "
+    "elimination, absorption, a population parameter shared by an eta-carrying and an eta-free individual parameter), varied per case by fixed parameters, omegas fixed to 0, dataset subsets and an "
     "MDV/EVID column; OFVs on a 0.25 grid with ties and NaN, minimisation flags, termination causes, sigdigs, "
     "RSEs, gradients, estimates near bounds, covariance matrices, logs; rank types ofv/aic/bic(4)/lrt, "
     "cut-offs None/scalar/tuple, penalties, parent maps, random strictness expressions. 1/3 statistic cases: "
